@@ -593,6 +593,31 @@ V("f-violated-generator-ignore-dropped", "fire", ["C15"], OPT, VIOL_OLD, _viol_n
 V("f-violated-generator-first-clause-only", "fire", ["C15"], OPT, VIOL_OLD,
   _viol_new("index not in ignore", "counter == cost").replace("for clause in conditional\n", "for clause in conditional[:1]\n"), note="only the first clause of a conditional is looked at")
 
+# round 5: benign neighbours of the seeded slips
+LI = "inference/lex_inf.py"
+LEX_IGN_OLD = """        ignore = [
+            item
+            for sublist in self.epistemic_state["partition"]
+            if sublist != part
+            for item in sublist
+        ]
+"""
+LEX_IGN_CHAIN = """        import itertools
+        ignore = itertools.chain.from_iterable(
+            sublist for sublist in self.epistemic_state["partition"] if sublist != part
+        )
+"""
+V("f-lex-ignore-iterator", "fire", ["C04"], LI, LEX_IGN_OLD, LEX_IGN_CHAIN, note="round 5: the ignore list is a one-shot iterator, membership tests consume it")
+V("s-lex-ignore-iterator-materialised", "silent", ["C04", "C15"], LI, LEX_IGN_OLD, LEX_IGN_CHAIN,
+  more=((OPT, "        xMins: list[set[int]] = []\n", "        ignore = set(ignore)\n        xMins: list[set[int]] = []\n", 0),),
+  note="the enumeration makes a set of its argument first: an iterator is as good as a list then")
+V("s-mcs-ignore-copy-then-sort", "silent", ["C15", "C12"], OPT, "        xMins: list[set[int]] = []\n", "        ignore = list(ignore)\n        ignore.sort()\n        xMins: list[set[int]] = []\n",
+  note="a copy of the (default) list is changed, not the shared default")
+V("f-mcs-ignore-default-sorted-in-place", "silent", ["C15"], OPT, "        xMins: list[set[int]] = []\n", "        xMins: list[set[int]] = []\n        _ = sorted(ignore)\n",
+  note="reading the default is harmless")
+V("f-mcs-ignore-default-extended", "fire", ["C15", "C12"], OPT, "        xMins: list[set[int]] = []\n", "        ignore.extend(k for k, c in self.epistemic_state['nf_cnf_dict'].items() if not c)\n        xMins: list[set[int]] = []\n",
+  note="round 5: the shared default list grows with every call")
+
 
 def main():
     hv = os.path.join(HERE, "harvested.json")
